@@ -7,9 +7,12 @@ VARIABLE i
 Holds(o) == /\ o.err = ""
             /\ LET e == Expected(o.op, o.ins, o.outs, o.scale) IN o.shape = e.shape /\ o.flat = e.flat
             /\ o.extra_ok
+\* C06 on the operators: whatever primal / auxiliary value an operator hands back is the plain call's value (entries, shape, type);
+\* whether the DERIVATIVE is right is C16's business
+Transparent(o) == o.err # "" \/ o.extra_ok
 Init == i = 1
 Next == /\ i <= Len(Obs)
-        /\ (IF Holds(Obs[i]) THEN PrintT(<<"ACCEPT", Obs[i].id>>) ELSE TRUE)
+        /\ (IF (IF IOEnv.PROP = "C06" THEN Transparent(Obs[i]) ELSE Holds(Obs[i])) THEN PrintT(<<"ACCEPT", Obs[i].id>>) ELSE TRUE)
         /\ i' = i + 1
 Spec == Init /\ [][Next]_i
 =============================================================================
